@@ -401,6 +401,8 @@ func (s *Sim) dialUDP(addr string) (net.Conn, error) {
 	}
 	cc := s.W.NewConn("cl.sn:"+a.plan.Name, true, a.link.addr, simrt.Addr{Net: "udp", S: addr})
 	cc.Out = func(i int, b []byte) { a.link.c2g(b) }
+	lk := a.link
+	cc.WErr = func(i int, b []byte) error { return lk.werr("c2g", b) }
 	a.link.clConn = cc
 	return cc, nil
 }
